@@ -41,7 +41,11 @@ OFFSETS = [1e-6, 0.25, 0.5, 1 - 1e-6]
 def shards(tier, seed):
     k = 16
     n = 600 if tier == "quick" else 6000
-    return [{"shard": i, "nshards": k, "n": n // k + 1, "hi": 6 if tier == "quick" else 9} for i in range(k)]
+    out = [{"shard": i, "nshards": k, "n": n // k + 1, "hi": 6 if tier == "quick" else 9} for i in range(k)]
+    # the repository's own tests as one more workload under the same contracts
+    out.append({"shard": k, "repo_tests": ["tests/unit/test_coordinatesystem.py", "tests/unit/test_point.py", "tests/unit/test_patches.py", "tests/unit/test_subregion.py",
+                                           "tests/unit/test_affine.py", "tests/unit/test_coordinate_transformation.py", "tests/unit/test_arithmetics.py"]})
+    return out
 
 
 # ---------------------------------------------------------------- judgements
@@ -133,6 +137,10 @@ def run_shard(spec, R):
     from vf.gen.images import make_image, rng_for
 
     attach(R)
+    if spec.get("repo_tests"):
+        from vf.ambient import run_repo_tests
+
+        return run_repo_tests(R, spec["repo_tests"])
     rng = rng_for(spec["seed"], "C01", spec["shard"])
     eps = np.finfo(float).eps
     for n in range(spec["n"]):
